@@ -92,7 +92,7 @@ theorem C15_closure_wellformed (msgs : List Msg) (h : authzLimiter c15AuthzDisab
 theorem C15_gate_closure (cfg : Cfg) (md : Mode) (tx : Tx) (h : anteGate cfg md tx = .pass) :
     (∀ m, InExec m tx.msgs → m.url ∉ c15AuthzDisabled) ∧
     (∀ t, Anywhere (.grant t) tx.msgs → t ∉ c15AuthzDisabled) := by
-  rcases (anteGate_pass_iff cfg md tx).mp h with ⟨_, he⟩ | ⟨_, _, _, _, ha⟩
+  rcases (anteGate_pass_iff cfg md tx).mp h with ⟨_, he, _⟩ | ⟨_, _, _, _, ha⟩
   · have hall := ethOnly_all he
     refine ⟨fun m hi => absurd hi (no_inExec_of_all_plain hall m), ?_⟩
     intro t ha
@@ -111,7 +111,7 @@ example : anteGate ⟨true, [3]⟩ Mode.check
     none of the three vesting-creation URLs among its own messages (any route, any mode). -/
 theorem C15_vesting_top_level (cfg : Cfg) (md : Mode) (tx : Tx) (h : anteGate cfg md tx = .pass) :
     ∀ m, m ∈ tx.msgs → m.url ∉ c15VestingDisabled := by
-  rcases (anteGate_pass_iff cfg md tx).mp h with ⟨_, he⟩ | ⟨_, _, _, hv, _⟩
+  rcases (anteGate_pass_iff cfg md tx).mp h with ⟨_, he, _⟩ | ⟨_, _, _, hv, _⟩
   · intro m hm
     rw [ethOnly_all he m hm]
     decide
@@ -162,7 +162,7 @@ theorem C15_routing_eth_msgs_only_on_eth_path (cfg : Cfg) (md : Mode) (tx : Tx) 
 theorem C15_routing_eth_path_only_eth_msgs (cfg : Cfg) (md : Mode) (tx : Tx) (h : anteGate cfg md tx = .pass)
     (ho : tx.opts = ["/ethermint.evm.v1.ExtensionOptionsEthereumTx"]) :
     ∀ m, m ∈ tx.msgs → m = .plain "/ethermint.evm.v1.MsgEthereumTx" := by
-  rcases (anteGate_pass_iff cfg md tx).mp h with ⟨_, he⟩ | ⟨ho', _⟩
+  rcases (anteGate_pass_iff cfg md tx).mp h with ⟨_, he, _⟩ | ⟨ho', _⟩
   · exact ethOnly_all he
   · rw [ho] at ho'
     rcases ho' with h' | h' <;> simp [web3OptURL] at h'
@@ -191,44 +191,31 @@ example : anteGate ⟨false, []⟩ Mode.check
     ⟨[.plain "/ethermint.evm.v1.MsgEthereumTx"], ["/ethermint.types.v1.ExtensionOptionsWeb3Tx"], [7]⟩ = .reject "reject-msgs" := by
   decide
 
-/-! ### authenticated mempool
+/-! ### authenticated mempool -/
 
-  Full statement (FALSE on the current code, see `C15_mempool_counterexample`):
-
-      theorem C15_mempool (cfg : Cfg) (md : Mode) (tx : Tx) (hen : cfg.mempoolAuth = true)
-          (hmode : md.isCheckTx = true ∧ md.simulate = false) (h : anteGate cfg md tx = .pass) :
-          ∃ a, a ∈ tx.signers ∧ a ∈ cfg.authorised
-
-  `newEthAnteHandler` does not contain the AuthenticatedMempoolDecorator, so a transaction on the Ethereum route
-  is admitted by CheckTx whoever signed it.  -/
-
-/-- the negation of the full statement, with a concrete witness: mempool authentication on, authorised set {1},
-    an Ethereum transaction signed by 0, CheckTx: every gate passes. -/
-theorem C15_mempool_counterexample :
-    ¬ (∀ (cfg : Cfg) (md : Mode) (tx : Tx), cfg.mempoolAuth = true → (md.isCheckTx = true ∧ md.simulate = false) →
-        anteGate cfg md tx = .pass → ∃ a, a ∈ tx.signers ∧ a ∈ cfg.authorised) := by
-  intro h
-  have := h ⟨true, [1]⟩ Mode.check
-    ⟨[.plain "/ethermint.evm.v1.MsgEthereumTx"], ["/ethermint.evm.v1.ExtensionOptionsEthereumTx"], [0]⟩
-    rfl ⟨rfl, rfl⟩ (by decide)
-  simp at this
-
-/-- "With the authenticated mempool enabled, CheckTx admits only transactions with an authorised signer" — the
-    strongest true part: it holds for every transaction that is not on the Ethereum route (no option, or the
-    EIP-712 option), in CheckTx and ReCheckTx. -/
-theorem C15_mempool_partial (cfg : Cfg) (md : Mode) (tx : Tx) (hen : cfg.mempoolAuth = true)
-    (hmode : md.isCheckTx = true ∧ md.simulate = false)
-    (hroute : tx.opts ≠ ["/ethermint.evm.v1.ExtensionOptionsEthereumTx"])
-    (h : anteGate cfg md tx = .pass) :
+/-- "With the authenticated mempool enabled, CheckTx admits only transactions with an authorised signer": on every
+    route (no option, EIP-712 option, Ethereum option), in CheckTx and ReCheckTx. -/
+theorem C15_mempool (cfg : Cfg) (md : Mode) (tx : Tx) (hen : cfg.mempoolAuth = true)
+    (hmode : md.isCheckTx = true ∧ md.simulate = false) (h : anteGate cfg md tx = .pass) :
     ∃ a, a ∈ tx.signers ∧ a ∈ cfg.authorised := by
-  rcases (anteGate_pass_iff cfg md tx).mp h with ⟨ho, _⟩ | ⟨_, _, hm, _, _⟩
-  · exact absurd ho hroute
-  · have hf : hasFetchers cfg = true := by simp [hasFetchers, hen, fetchers_nonempty]
-    have := hm hf
-    simp only [mempoolDec, guard_val, hmode.1, hmode.2, Bool.not_false, Bool.and_self, ite_true,
-      commonAddressesExist, List.any_eq_true, beq_iff_eq] at this
-    obtain ⟨a, ha, b, hb, hab⟩ := this
-    exact ⟨a, ha, hab ▸ hb⟩
+  have hf : hasFetchers cfg = true := by simp [hasFetchers, hen, fetchers_nonempty]
+  have key : mempoolDec md tx.signers cfg.authorised = true := by
+    rcases (anteGate_pass_iff cfg md tx).mp h with ⟨_, _, hm⟩ | ⟨_, _, hm, _, _⟩
+    · exact hm hf
+    · exact hm hf
+  simp only [mempoolDec, guard_val, hmode.1, hmode.2, Bool.not_false, Bool.and_self, ite_true,
+    commonAddressesExist, List.any_eq_true, beq_iff_eq] at key
+  obtain ⟨a, ha, b, hb, hab⟩ := key
+  exact ⟨a, ha, hab ▸ hb⟩
+
+/-- an Ethereum transaction from an unauthorised signer is now refused by CheckTx … -/
+example : anteGate ⟨true, [1]⟩ Mode.check
+    ⟨[.plain "/ethermint.evm.v1.MsgEthereumTx"], ["/ethermint.evm.v1.ExtensionOptionsEthereumTx"], [0]⟩ = .reject "mempool" := by
+  decide
+/-- … and still executes in a block -/
+example : anteGate ⟨true, [1]⟩ Mode.deliver
+    ⟨[.plain "/ethermint.evm.v1.MsgEthereumTx"], ["/ethermint.evm.v1.ExtensionOptionsEthereumTx"], [0]⟩ = .pass := by
+  decide
 
 example : anteGate ⟨true, [1]⟩ Mode.check ⟨[.plain "/cosmos.bank.v1beta1.MsgSend"], [], [0]⟩ = .reject "mempool" := by
   decide
@@ -249,7 +236,10 @@ theorem C15_mempool_block_execution_unaffected (md : Mode) (tx : Tx) (a a' : Lis
   unfold anteGate
   cases route tx.opts with
   | reject w => rfl
-  | eth => rw [ethChainK_val]; simp only [runChain, condHolds, decStep, ite_true]
+  | eth =>
+    rw [ethChainK_val]
+    simp only [runChain, condHolds, decStep, hg, ite_true]
+    cases hasFetchers ⟨b, a⟩ <;> cases hasFetchers ⟨b', a'⟩ <;> rfl
   | cosmos e =>
     rw [cosmosChainK_val]
     simp only [runChain, condHolds, decStep, hg, ite_true]
